@@ -339,7 +339,7 @@ Theorem c02_par_lat_acausal_model_refuted :
 Proof. exact LatParCausality.acausal_run_not_least. Qed.
 
 (* SCOPE of the lattice engine theorems: programs without aggregation (the hypothesis no_agg, as in C03; aggregates over parallel
-   lattice relations are C04 / C05's subject and are exercised through ascent_par! by the tie only); a run that ENDS (no state of the head updates is a deadlock: c02_par_lat_no_deadlock, and
+   lattice relations: c02_par_lat_agg_* at the end of this file); a run that ENDS (no state of the head updates is a deadlock: c02_par_lat_no_deadlock, and
    per iteration every reachable state of them can be completed: c02_lattice_can_finish; termination of the SCC loop is a property of
    the program, e.g. finite lattice height, not of the engine).  The outcome of the head update of a PLAIN relation inside such a
    program is taken from c02_iteration_schedule_independent (new rows = the derived facts absent from total / delta, each once): it
@@ -359,3 +359,228 @@ Print Assumptions c02_par_lat_run_least_fixed_point. Print Assumptions c02_par_l
 Print Assumptions c02_par_lat_equals_serial. Print Assumptions c02_par_lat_run_sound. Print Assumptions c02_par_lat_run_closed_at_exit.
 Print Assumptions c02_par_lat_sound_at_every_iteration. Print Assumptions c02_par_lat_no_deadlock.
 Print Assumptions c02_par_lat_example_hypotheses. Print Assumptions c02_par_lat_example_run. Print Assumptions c02_par_lat_acausal_model_refuted.
+
+(* ================= the PARALLEL lattice engine WITH aggregation / negation =================
+   Model LatEngine/LatParAggModel.v par_lat_agg_run_plan = LatParModel.v (step machines, one global schedule, reads of any value a
+   row has had so far) + PAgg items traversing ANY permutation of the frozen Total version of the aggregated relation's index.
+   Proof by reduction: while an SCC runs the aggregated relations are complete and frozen, so an aggregate equals a generator
+   under the interpretation tr_interp of the rows at SCC entry (LatParAggSim.v), then the per-SCC parallel theorems above. *)
+From AV Require Import Engine.Core.
+From AV Require Import Engine.Eval.
+From AV Require Import Engine.Validate.
+From AV Require Import Engine.Naive.
+From AV Require Import Engine.InterfaceAgg.
+From AV Require Import Engine.Strat.
+From AV Require Import Engine.StratFixed.
+From AV Require Import Engine.StrataAgg.
+From AV Require Engine.Vocab.
+From AV Require LatEngine.LatKeys.
+From AV Require LatEngine.LatAggEval.
+From AV Require LatEngine.LatAggTrans.
+From AV Require LatEngine.LatAggInv.
+From AV Require LatEngine.LatAggSem.
+From AV Require LatEngine.LatAggStrata.
+From AV Require LatEngine.LatAggMain.
+From AV Require LatEngine.LatAggExample.
+From AV Require LatEngine.LatParAggModel.
+From AV Require LatEngine.LatParAggSim.
+From AV Require LatEngine.LatParAggEmbed.
+From AV Require LatEngine.LatParAggMain.
+From AV Require LatEngine.LatParAggExample.
+
+(* ---- lattice relations under ascent_par! WITH aggregation / negation: the WHOLE ENGINE.
+   Model: LatEngine/LatParAggModel.v par_lat_agg_run_plan = LatParModel.par_lat_run_plan (SCCs in plan order, the SCC loop, per
+   iteration any number of workers, the step machine of Engine/ParLat.v per dynamic lattice relation, ONE global schedule,
+   rows[i].read().clone() observations subject to causality / exhaustiveness) where an item MirBodyItem::Agg is evaluated as the
+   generated parallel code does: index_get on the TOTAL (frozen) version of the aggregated relation's index, the listed row
+   numbers traversed in ANY order, each row read ONCE with a value it has had so far during the iteration (lattice rows are copied
+   through rows[i].read().clone(), fix 91f3357; the index of a lattice relation is set-backed, d5edf35), the aggregator applied to
+   the bound columns of the rows carrying the key, the body continued once per value.
+   Hypotheses as in c04_lattice_stratified_model (the serial engine): plan accepted by the validator and the lattice index check,
+   variables below N, monotone program whose aggregates have plain key expressions and a plain output variable, lattice laws
+   (C16), permutation-invariant aggregators (the shipped ones: c04_lattice_shipped_aggregators), input with one row per key and
+   no duplicate rows. *)
+
+(* EVERY parallel run computes the STRATIFIED LATTICE MODEL (LatAggSem.strat_lat_model, the specification the serial engine is
+   proved against in C04): the rules are grouped into strata respecting the dependencies; stratum after stratum R0 -> R1 the rows
+   are the least fixed point (C03's notion: per-key directed, closed, above R0, below every such set) of the stratum's rules, an
+   aggregate / negation ranging over the rows of R0 with the key - each row once, one row per key for a lattice relation;
+   literally one row per key and no duplicate row at the end *)
+Theorem c02_par_lat_agg_run_stratified_model : forall (V : Type) (I : LatSyntax.linterp V), LatSyntax.veqb_ok I ->
+  forall vagg : nat -> list (list V) -> list V, (forall a l l', Permutation l l' -> vagg a l = vagg a l') ->
+  forall (islat : rel -> bool) (lle : rel -> V -> V -> Prop) (jm : rel -> V -> V -> V * bool),
+  (forall r, islat r = true -> LatSem.lat_laws (lle r) (jm r)) ->
+  forall arities : list (rel * nat), arities_functional arities ->
+  forall (P : list rule) (N : var), LatAggSem.amonotone_program I islat lle N P ->
+  forall pl : plan, validate arities P pl = true -> LatAggEval.alat_plan_ok islat arities pl = true -> LatAggTrans.plan_below N pl = true ->
+  forall (Rin : rel -> list (LatSyntax.vtuple V)) (st : LatEval.lstate), LatAggMain.ainput_ok I islat lle arities Rin ->
+  LatParAggModel.par_lat_agg_run_plan I vagg islat jm pl Rin st ->
+  stratified (plan_strata P pl) = true
+  /\ (forall r, In r P <-> In r (concat (plan_strata P pl)))
+  /\ LatAggSem.strat_lat_model I vagg islat lle (plan_strata P pl) Rin (LatEval.l_rows st)
+  /\ LatKeys.keys_ok islat (LatEval.l_rows st) /\ LatAggInv.plain_nodup islat (LatEval.l_rows st).
+Proof. exact @LatParAggMain.par_lat_agg_run_stratified_model. Qed.
+
+(* ... hence the rows of the SERIAL engine with aggregates (LatAggEval.arun_plan, C04) on the same input, for every parallel run
+   and every iteration-order / len_estimate oracle of the serial model: in EVERY relation the same rows, as a permutation (row
+   numbers depend on the schedule, rows and their multiplicity do not) *)
+Theorem c02_par_lat_agg_equals_serial : forall (V : Type) (I : LatSyntax.linterp V), LatSyntax.veqb_ok I ->
+  forall vagg : nat -> list (list V) -> list V, (forall a l l', Permutation l l' -> vagg a l = vagg a l') ->
+  forall (islat : rel -> bool) (lle : rel -> V -> V -> Prop) (jm : rel -> V -> V -> V * bool),
+  (forall r, islat r = true -> LatSem.lat_laws (lle r) (jm r)) ->
+  forall arities : list (rel * nat), arities_functional arities ->
+  forall (P : list rule) (N : var), LatAggSem.amonotone_program I islat lle N P ->
+  forall pl : plan, validate arities P pl = true -> LatAggEval.alat_plan_ok islat arities pl = true -> LatAggTrans.plan_below N pl = true ->
+  forall (shuffle ashuffle : nat -> list nat -> list nat) (swap_oracle : nat -> list nat -> list nat -> bool) (fuel : nat)
+         (Rin : rel -> list (LatSyntax.vtuple V)) (st_par st_ser : LatEval.lstate),
+  (forall n l x, In x (shuffle n l) <-> In x l) -> (forall n l, Permutation (ashuffle n l) l) ->
+  LatAggMain.ainput_ok I islat lle arities Rin ->
+  LatParAggModel.par_lat_agg_run_plan I vagg islat jm pl Rin st_par ->
+  LatAggEval.arun_plan I vagg islat jm shuffle ashuffle swap_oracle fuel pl Rin = Some st_ser ->
+  (forall r t, In t (LatEval.l_rows st_par r) <-> In t (LatEval.l_rows st_ser r))
+  /\ (forall r, Permutation (LatEval.l_rows st_par r) (LatEval.l_rows st_ser r)).
+Proof. exact @LatParAggMain.par_lat_agg_equals_serial. Qed.
+
+(* the specification itself is deterministic: two stratified lattice models over inputs that are permutations of each other are
+   permutations of each other, relation by relation *)
+Theorem c02_par_lat_agg_model_unique : forall (V : Type) (I : LatSyntax.linterp V), LatSyntax.veqb_ok I ->
+  forall vagg : nat -> list (list V) -> list V, (forall a l l', Permutation l l' -> vagg a l = vagg a l') ->
+  forall (islat : rel -> bool) (lle : rel -> V -> V -> Prop) (jm : rel -> V -> V -> V * bool),
+  (forall r, islat r = true -> LatSem.lat_laws (lle r) (jm r)) ->
+  forall (strata : list (list rule)) (R0 R0' R R' : rel -> list (LatSyntax.vtuple V)),
+  (forall r, Permutation (R0 r) (R0' r)) -> LatAggInv.plain_nodup islat R0 -> LatAggInv.plain_nodup islat R0' ->
+  LatAggSem.strat_lat_model I vagg islat lle strata R0 R -> LatAggSem.strat_lat_model I vagg islat lle strata R0' R' ->
+  forall r, Permutation (R r) (R' r).
+Proof. exact @LatParAggMain.strat_lat_model_unique. Qed.
+
+(* the rows an aggregate of an SCC ranges over are the FINAL rows of the aggregated relation: neither the SCC of the aggregate nor
+   a later one writes them, in any parallel run *)
+Theorem c02_par_lat_agg_aggregated_final : forall (V : Type) (I : LatSyntax.linterp V), LatSyntax.veqb_ok I ->
+  forall vagg : nat -> list (list V) -> list V, (forall a l l', Permutation l l' -> vagg a l = vagg a l') ->
+  forall (islat : rel -> bool) (lle : rel -> V -> V -> Prop) (jm : rel -> V -> V -> V * bool),
+  (forall r, islat r = true -> LatSem.lat_laws (lle r) (jm r)) ->
+  forall arities : list (rel * nat), arities_functional arities ->
+  forall (P : list rule) (N : var), LatAggSem.amonotone_program I islat lle N P ->
+  forall pl : plan, validate arities P pl = true -> LatAggEval.alat_plan_ok islat arities pl = true -> LatAggTrans.plan_below N pl = true ->
+  forall (pre : list pscc) (sc : pscc) (rest : list pscc) (st st' : LatEval.lstate),
+  pl = pre ++ sc :: rest -> LatAggStrata.AG I islat lle arities st ->
+  LatParAggModel.par_lat_agg_run_sccs I vagg islat jm (sc :: rest) st st' ->
+  forall q, In q (stratum_agg_rels (stratum_of P sc)) -> LatEval.l_rows st' q = LatEval.l_rows st q.
+Proof. exact @LatParAggMain.par_lat_agg_aggregated_final. Qed.
+
+(* the REDUCTION behind the theorems, as a statement about the model: a parallel run of an SCC with aggregates IS - same workers,
+   same contributions, same schedule, same final state - a parallel run of the aggregate-free translated SCC (every aggregate
+   replaced by a generator) of LatParModel under the interpretation in which that generator yields the aggregate of the rows at
+   SCC entry: while an SCC runs in parallel the aggregated relations are complete and frozen *)
+Theorem c02_par_lat_agg_reduction : forall (V : Type) (I : LatSyntax.linterp V), LatSyntax.veqb_ok I ->
+  forall vagg : nat -> list (list V) -> list V, (forall a l l', Permutation l l' -> vagg a l = vagg a l') ->
+  forall (islat : rel -> bool) (jm : rel -> V -> V -> V * bool) (arities : list (rel * nat)) (P : list rule) (K : nat) (N : var),
+  LatAggTrans.body_bound K P = true ->
+  forall (sc : pscc) (st st' : LatEval.lstate),
+  scc_ok arities P sc = true -> forallb (LatAggTrans.variant_below N) (s_vars sc) = true ->
+  LatAggInv.stored_exact st -> LatAggInv.plain_nodup islat (LatEval.l_rows st) ->
+  LatParAggModel.par_lat_agg_run_scc I vagg islat jm sc st st' ->
+  LatParModel.par_lat_run_scc (LatAggTrans.tr_interp I vagg islat P K (LatEval.l_rows st)) islat jm (LatAggTrans.tr_scc K N sc) st st'.
+Proof. exact @LatParAggSim.par_run_scc_tr. Qed.
+
+(* the model with aggregates is a conservative extension of LatParModel.v: on an SCC without aggregate items the parallel runs of
+   the two models are the same *)
+Theorem c02_par_lat_agg_conservative : forall (V : Type) (I : LatSyntax.linterp V) (vagg : nat -> list (list V) -> list V)
+  (islat : rel -> bool) (jm : rel -> V -> V -> V * bool) (sc : pscc), LatParAggEmbed.scc_noagg sc = true ->
+  forall st st' : LatEval.lstate,
+  LatParAggModel.par_lat_agg_run_scc I vagg islat jm sc st st' <-> LatParModel.par_lat_run_scc I islat jm sc st st'.
+Proof. exact @LatParAggEmbed.par_agg_run_scc_noagg. Qed.
+
+(* at EVERY iteration start a parallel run can reach (any number of completed SCCs, any number of parallel iterations of the next
+   one): the state between the SCCs is well formed (arities, one row per key, no duplicate plain rows, EXACT stored indices - each
+   row number once), the rows have one row per key, total / delta list every row of the dynamic relations, and the relations the
+   SCC does not write (in particular the aggregated ones) still hold their rows at SCC entry *)
+Theorem c02_par_lat_agg_at_every_iteration : forall (V : Type) (I : LatSyntax.linterp V), LatSyntax.veqb_ok I ->
+  forall vagg : nat -> list (list V) -> list V, (forall a l l', Permutation l l' -> vagg a l = vagg a l') ->
+  forall (islat : rel -> bool) (lle : rel -> V -> V -> Prop) (jm : rel -> V -> V -> V * bool),
+  (forall r, islat r = true -> LatSem.lat_laws (lle r) (jm r)) ->
+  forall arities : list (rel * nat), arities_functional arities ->
+  forall (P : list rule) (N : var), LatAggSem.amonotone_program I islat lle N P ->
+  forall pl : plan, validate arities P pl = true -> LatAggEval.alat_plan_ok islat arities pl = true -> LatAggTrans.plan_below N pl = true ->
+  forall Rin : rel -> list (LatSyntax.vtuple V), LatAggMain.ainput_ok I islat lle arities Rin ->
+  forall (pre : list pscc) (sc : pscc) (rest : list pscc) (st : LatEval.lstate) (T2 D2 : rel -> list nat) (R2 : rel -> list (LatSyntax.vtuple V)),
+  pl = pre ++ sc :: rest ->
+  LatParAggModel.par_lat_agg_run_sccs I vagg islat jm pre (LatEval.update_indices Rin) st ->
+  LatParAggModel.par_lat_agg_loop_reach I vagg islat jm sc (LatEval.l_stored st) (fun _ => [])
+    (fun r => if is_dyn (s_dyn sc) r then LatEval.l_stored st r else []) (LatEval.l_rows st) T2 D2 R2 ->
+  LatAggStrata.AG I islat lle arities st
+  /\ (forall r, islat r = true -> NoDup (map LatSyntax.tkey (R2 r)))
+  /\ (forall r i, is_dyn (s_dyn sc) r = true -> (i < length (R2 r))%nat -> In i (T2 r) \/ In i (D2 r))
+  /\ (forall q, is_dyn (s_dyn sc) q = false -> R2 q = LatEval.l_rows st q).
+Proof. exact @LatParAggMain.par_lat_agg_intermediate. Qed.
+
+(* no deadlock anywhere in a parallel run of a program with aggregates (carried over from c02_par_lat_no_deadlock): in every state
+   of every iteration a run can reach - ANY contributions, ANY global schedule - a lattice relation whose head updates are not
+   finished has a worker that can perform a step *)
+Theorem c02_par_lat_agg_no_deadlock : forall (V : Type) (I : LatSyntax.linterp V), LatSyntax.veqb_ok I ->
+  forall vagg : nat -> list (list V) -> list V, (forall a l l', Permutation l l' -> vagg a l = vagg a l') ->
+  forall (islat : rel -> bool) (lle : rel -> V -> V -> Prop) (jm : rel -> V -> V -> V * bool),
+  (forall r, islat r = true -> LatSem.lat_laws (lle r) (jm r)) ->
+  forall arities : list (rel * nat), arities_functional arities ->
+  forall (P : list rule) (N : var), LatAggSem.amonotone_program I islat lle N P ->
+  forall pl : plan, validate arities P pl = true -> LatAggEval.alat_plan_ok islat arities pl = true -> LatAggTrans.plan_below N pl = true ->
+  forall Rin : rel -> list (LatSyntax.vtuple V), LatAggMain.ainput_ok I islat lle arities Rin ->
+  forall (pre : list pscc) (sc : pscc) (rest : list pscc) (st : LatEval.lstate) (T2 D2 : rel -> list nat) (R2 : rel -> list (LatSyntax.vtuple V))
+         (mx : rel -> list V -> nat) (kfirst : rel -> bool) (work : rel -> list (list (list V * V))) (sched : list (rel * nat)) (r : rel),
+  pl = pre ++ sc :: rest ->
+  LatParAggModel.par_lat_agg_run_sccs I vagg islat jm pre (LatEval.update_indices Rin) st ->
+  LatParAggModel.par_lat_agg_loop_reach I vagg islat jm sc (LatEval.l_stored st) (fun _ => [])
+    (fun r0 => if is_dyn (s_dyn sc) r0 then LatEval.l_stored st r0 else []) (LatEval.l_rows st) T2 D2 R2 ->
+  LatParModel.latdyn islat sc r = true ->
+  let s := LatParModel.grun I jm T2 D2 R2 mx kfirst (LatParModel.ginit I R2 work) sched r in
+  ParLat.finished s = false -> exists j, ParLat.enabled (mx r) s j = true.
+Proof. exact @LatParAggMain.par_lat_agg_run_no_deadlock. Qed.
+
+(* non-vacuity: d(y, v) <-- d(x, v), e(x, y) over Dual<u32> (the looping SCC of c02_par_lat_example_run, two workers, worker 1
+   observing a value raised by worker 0) followed by m(x, n) <-- e(x, y), agg n = min(v) in d(x, v) in a later SCC (the aggregate
+   binds the lattice column: the rows[i].read().clone() path): every hypothesis holds, there is a parallel run, it ends in
+   d = {0 -> 3, 1 -> 3}, m = {(0,3), (1,3)}, the serial model computes the same rows (m in another order), and the theorems apply *)
+Example c02_par_lat_agg_example_hypotheses :
+  LatSyntax.veqb_ok LatVocab.lv_interp
+  /\ (forall a l l', Permutation l l' -> Vocab.std_aint a l = Vocab.std_aint a l')
+  /\ (forall r, LatExample.sp_islat r = true -> LatSem.lat_laws (LatExample.sp_lle r) (LatExample.sp_jm r))
+  /\ arities_functional LatParAggExample.pax_arities
+  /\ LatAggSem.amonotone_program LatVocab.lv_interp LatExample.sp_islat LatExample.sp_lle 4%nat LatParAggExample.pax_prog
+  /\ validate LatParAggExample.pax_arities LatParAggExample.pax_prog LatParAggExample.pax_plan = true
+  /\ LatAggEval.alat_plan_ok LatExample.sp_islat LatParAggExample.pax_arities LatParAggExample.pax_plan = true
+  /\ LatAggTrans.plan_below 4%nat LatParAggExample.pax_plan = true
+  /\ LatAggMain.ainput_ok LatVocab.lv_interp LatExample.sp_islat LatExample.sp_lle LatParAggExample.pax_arities LatParExample.px_input.
+Proof.
+  split; [exact LatExample.sp_eq|]. split; [exact LatAggExample.ag_agg_perm|]. split; [exact LatExample.sp_laws|].
+  split; [exact LatParAggExample.pax_arities_functional|]. split; [exact LatParAggExample.pax_monotone|].
+  destruct LatParAggExample.pax_checks as [A [B C]]. split; [exact A|]. split; [exact B|]. split; [exact C | exact LatParAggExample.pax_input_ok].
+Qed.
+Example c02_par_lat_agg_example_run : exists st,
+  LatParAggModel.par_lat_agg_run_plan LatVocab.lv_interp Vocab.std_aint LatExample.sp_islat LatExample.sp_jm
+    LatParAggExample.pax_plan LatParExample.px_input st
+  /\ LatEval.l_rows st 1%nat = [[0; 3]; [1; 3]]%Z /\ LatEval.l_rows st 2%nat = [[0; 3]; [1; 3]]%Z
+  /\ option_map (fun s => (LatEval.l_rows s 1%nat, LatEval.l_rows s 2%nat))
+       (LatAggEval.arun_plan LatVocab.lv_interp Vocab.std_aint LatExample.sp_islat LatExample.sp_jm LatVocab.lv_shuffle LatVocab.lv_shuffle
+          LatVocab.lv_swap 10 LatParAggExample.pax_plan LatParExample.px_input)
+     = Some ([[0; 3]; [1; 3]], [[1; 3]; [0; 3]])%Z
+  /\ LatAggSem.strat_lat_model LatVocab.lv_interp Vocab.std_aint LatExample.sp_islat LatExample.sp_lle
+       (plan_strata LatParAggExample.pax_prog LatParAggExample.pax_plan) LatParExample.px_input (LatEval.l_rows st).
+Proof.
+  exists LatParAggExample.pax_final. split; [exact LatParAggExample.pax_parallel_run|].
+  split; [exact (proj1 LatParAggExample.pax_result)|]. split; [exact (proj2 LatParAggExample.pax_result)|].
+  split; [exact LatParAggExample.pax_serial | exact (proj1 LatParAggExample.pax_instance)].
+Qed.
+
+(* SCOPE / RESIDUE.  A run that ENDS (termination of the SCC loop is a property of the program); the outcome of the head update of a
+   plain relation inside an iteration is part of the model (from c02_iteration_schedule_independent), as in LatParModel; index
+   lookups are abstracted to "all listed rows that carry the key" (exact for plans passing alat_plan_ok: no index of a lattice
+   relation on the lattice column).  The relational model is tied to the real ascent_par! binaries by sampling only
+   (gen/c02_latagg.py: the lattice + aggregate family through ascent_par!, pools 1/3/8, with / without inter_rule_parallelism,
+   perturbation seeds, compared with the SERIAL MODEL column - legitimate by c02_par_lat_agg_equals_serial - and with the python
+   oracle); DashMap / RwLock / Mutex / rayon are assumed linearizable / correct (trusted base). *)
+
+Print Assumptions c02_par_lat_agg_run_stratified_model. Print Assumptions c02_par_lat_agg_equals_serial.
+Print Assumptions c02_par_lat_agg_model_unique. Print Assumptions c02_par_lat_agg_aggregated_final.
+Print Assumptions c02_par_lat_agg_reduction. Print Assumptions c02_par_lat_agg_conservative.
+Print Assumptions c02_par_lat_agg_at_every_iteration. Print Assumptions c02_par_lat_agg_no_deadlock.
+Print Assumptions c02_par_lat_agg_example_hypotheses. Print Assumptions c02_par_lat_agg_example_run.
